@@ -236,7 +236,8 @@ def check_from_algmod(prog, rep, c):
             args = [dump(a) for a in m.value.args]
             if len(tiles) >= 2 and len(args) == 2:
                 (rn, _, _), (cn, _, _) = tiles[0], tiles[1]
-                want = ["genpos[%s:%s]" % tuple(rn), "genpos[%s:%s]" % tuple(cn)]
+                gnames = [k for k, vs in defs.items() if any(isinstance(v, ast.Attribute) and v.attr == "vrnt_genpos" for v in vs)] or ["genpos"]
+                want = ["%s[%s:%s]" % ((gnames[0],) + tuple(rn)), "%s[%s:%s]" % ((gnames[0],) + tuple(cn))]
                 if args != want:
                     rep.violate("R3-coupling", construct, "recombination mesh is built from (%s), not from the genetic positions of (row chunk, column chunk)" % ", ".join(args),
                                 where(f, m), ", ".join(want), ", ".join(args))
@@ -245,21 +246,37 @@ def check_from_algmod(prog, rep, c):
                     rep.violate("R3-coupling", construct, "recombination mesh does not use indexing='ij' (rows would follow the column chunk)", where(f, m), "indexing='ij'",
                                 dump(kws.get("indexing")) if "indexing" in kws else "default 'xy'")
                     bad = True
-        rdef = [v for v in defs.get("r", [])]
-        if mg and rdef:
-            gi, gj = [dump(e) for e in mg[0].targets[0].elts]
-            okr = dump(rdef[0]) in ("gmapfn.mapfn(numpy.abs(%s - %s))" % (gi, gj), "gmapfn.mapfn(numpy.absolute(%s - %s))" % (gi, gj), "gmapfn.mapfn(numpy.abs(%s - %s))" % (gj, gi))
-            if not okr:
-                rep.violate("R3-coupling", construct, "recombination probabilities are %s, not the map function of |gi - gj|" % dump(rdef[0])[:60], where(f), "gmapfn.mapfn(numpy.abs(gi - gj))",
-                            dump(rdef[0])[:60])
-                bad = True
+        # the linkage terms receive (r, nself): r is found as the first argument of the cov_D* calls, never by its name
+        rnames = set()
         for k, vs in defs.items():
             for v in vs:
                 if isinstance(v, ast.Call) and isinstance(v.func, ast.Name) and v.func.id.startswith("cov_D"):
                     a = [dump(x) for x in v.args]
-                    if a[:2] != ["r", "nself"]:
-                        rep.violate("R3-coupling", construct, "linkage term %s receives (%s), not (r, nself, ...)" % (v.func.id, ", ".join(a)), where(f, v), "r, nself", ", ".join(a))
+                    if len(v.args) >= 2 and isinstance(v.args[0], ast.Name) and a[1] == "nself":
+                        rnames.add(v.args[0].id)
+                    else:
+                        rep.violate("R3-coupling", construct, "linkage term %s receives (%s), not (recombination probabilities, nself, ...)" % (v.func.id, ", ".join(a)), where(f, v),
+                                    "r, nself", ", ".join(a))
                         bad = True
+        if mg and len(rnames) == 1:
+            R = sorted(rnames)[0]
+            rdef = defs.get(R, [])
+            gi, gj = [dump(e) for e in mg[0].targets[0].elts]
+            gm = [p_ for p_ in f.params() if "mapfn" in p_]
+            fn_ = (gm[0] if gm else "gmapfn") + ".mapfn"
+            okr = rdef and dump(rdef[0]) in ("%s(numpy.abs(%s - %s))" % (fn_, gi, gj), "%s(numpy.absolute(%s - %s))" % (fn_, gi, gj), "%s(numpy.abs(%s - %s))" % (fn_, gj, gi),
+                                             "%s(numpy.absolute(%s - %s))" % (fn_, gj, gi))
+            if not okr:
+                d0 = dump(rdef[0])[:60] if rdef else "<undefined>"
+                if rdef and (gi in d0 or gj in d0 or "mapfn" in d0):
+                    rep.violate("R3-coupling", construct, "recombination probabilities are %s, not the map function of |gi - gj|" % d0, where(f), "%s(numpy.abs(%s - %s))" % (fn_, gi, gj), d0)
+                else:
+                    rep.violate("R3-coupling", construct, "the linkage terms receive %s = %s, which is not the map function of the meshed genetic distances" % (R, d0), where(f),
+                                "%s(numpy.abs(%s - %s))" % (fn_, gi, gj), d0)
+                bad = True
+        elif mg and len(rnames) > 1:
+            rep.violate("R3-coupling", construct, "the linkage terms of one chunk receive different recombination arrays: %s" % sorted(rnames), where(f))
+            bad = True
         if not bad:
             rep.ok("R3-coupling", construct, "%d chunk slices all [rst:rsp]/[cst:csp]; r = mapfn(|gi-gj|) of genpos meshed (rows, cols) 'ij'; linkage terms get (r, nself)" % nsl)
     # ------------------------------------------------------------------ R4 storage
